@@ -11,6 +11,17 @@ LIST = [
 def install():
     from sxl import runtime
     runtime._DISPATCH[print] = runtime._print
+    import socket
+
+    def _inet_ntoa(b):
+        from sxl.sbytes import SBytes
+        if isinstance(b, SBytes):
+            if all(isinstance(o, int) for o in b.o):
+                return socket.inet_ntoa(bytes(b.o))
+            from sxl.explore import Inconclusive
+            raise Inconclusive("inet_ntoa of symbolic octets (dotted-quad text of a symbolic address is not modelled)")
+        return socket.inet_ntoa(b)
+    runtime._DISPATCH[socket.inet_ntoa] = _inet_ntoa
     try:
         from kaitaistruct import KaitaiStream
         from sxl import kstream
